@@ -25,7 +25,7 @@ TRUSTED = [
     "translator vplib/translate/gen_lex_tables.py (scanners over prqlc-parser/src/lexer/mod.rs; fail closed on any unknown alternative, arm or combinator shape)",
     "modelled, not verified: coq/Model/Lexer.v is a hand re-statement of the chumsky combinators of lexer/mod.rs (chumsky 0.12 `choice`, `repeated`, `or_not`, `rewind`, `text::inline_whitespace`, `text::digits` semantics as read from its source); its tie to the code is this correspondence run plus the regenerated tables",
     "Rust's char::is_alphabetic / is_alphanumeric: Section variables in the theorems (hypotheses class_ok for the re-lex theorem); the executable instance Model/LexerExec.v is validated against Rust (harness `charclass`) on its whole declared domain on every run and only strings over that domain are fed to the model",
-    "float payloads are compared through python float() of the model's decimal text vs serde_json's f64 (infinite -> null)",
+    "float payloads are compared through python float() of the model's decimal text vs serde_json's f64; whether a literal is non-finite (then the whole source is rejected) is decided in the model by Lexer.float_nonfinite on the decimal text (value >= 2^1024 - 2^970), a hand model of Rust's correctly rounded str::parse::<f64>, checked against the implementation on the boundary cases of the corpus",
     "modelled, not verified: coq/Model/LexerInterp.v is a hand re-statement of parser/interpolation.rs (interpolated_parser, interpolate_ident_part); the translator pins the text of both functions, of the span rebasing in interpolation::parse and of its call in parser/expr.rs; tie = the interp-inner correspondence stream (observed through prql_to_pl)",
     "correspondence harness (harness/src/main.rs `lex` = prqlc::prql_to_tokens, serde of lr::Tokens; `pl` = prqlc::prql_to_pl) and the python/Coq comparison code (vplib/props/c17_lib.py, Model/LexerExec.v res_eqb, Model/LexerDecode.v: batches travel as one primitive-integer array; the transport is self-tested with a decode round trip and canaries on every run and an undecodable batch is a violation)",
 ]
